@@ -208,7 +208,7 @@ def c01(tier):
     for v in [None, "", "ab", "hello"]:
         for off in [0, 1, 2, 5, 6]:
             for d in ["", "X", "XYZ"]:
-                steps += [op(0, "DEL", "s")] + ([op(0, "SET", "s", v)] if v is not None else []) + [op(0, "SETRANGE", "s", off, d), op(0, "GET", "s"), op(0, "EXISTS", "s")]
+                steps += [op(0, "DEL", "s")] + ([op(0, "SET", "s", v)] if v is not None else []) + [op(0, "SETRANGE", "s", off, d), op(0, "GET", "s"), op(0, "MGET", "s"), op(0, "EXISTS", "s")]
         for off in [0, 1, 7, 8, 9, 23]:
             for bit in [0, 1]:
                 steps += [op(0, "DEL", "s")] + ([op(0, "SET", "s", v)] if v is not None else []) + [op(0, "SETBIT", "s", off, bit), op(0, "GET", "s"), op(0, "GETBIT", "s", off)]
